@@ -5,7 +5,8 @@ from . import expr as X
 from . import facts as F
 from .mir import span_loc
 
-CODEC_TRAITS = ("BitRead", "BitWrite", "PackedRead", "PackedWrite", "ScopedBitRead")
+CODEC_TRAITS = ("BitRead", "BitWrite", "PackedRead", "PackedWrite", "ScopedBitRead", "BasicRead", "BasicWrite",
+                "ProtoRead", "ProtoWrite")
 
 
 # ------------------------------------------------------------------ atoms
@@ -182,7 +183,8 @@ def constraint_params(program, trait, method):
         return _TWIN_CACHE[key]
     tshort = trait.split("::")[-1]
     twin_trait = {"BitRead": "BitWrite", "BitWrite": "BitRead", "PackedRead": "PackedWrite",
-                  "PackedWrite": "PackedRead"}.get(tshort)
+                  "PackedWrite": "PackedRead", "BasicRead": "BasicWrite", "BasicWrite": "BasicRead",
+                  "ProtoRead": "ProtoWrite", "ProtoWrite": "ProtoRead"}.get(tshort)
     mine = trait_params(program, trait, method) or []
     res = None
     if twin_trait:
@@ -460,6 +462,10 @@ def adt_of(P, crate, ty):
     for cand in (crate + "::" + bt, bt):
         if cand in P.adts:
             return P.adts[cand]
+    last = bt.split("::")[-1]
+    cands = [k for k in P.adts if k.split("::")[-1] == last and k.split("::")[0] == bt.split("::")[0]]
+    if len(cands) == 1:
+        return P.adts[cands[0]]
     # std enums used in matches
     if bt.endswith("option::Option"):
         return {"variants": [{"name": "None", "discr": "0", "fields": []}, {"name": "Some", "discr": "1", "fields": []}]}
@@ -565,3 +571,29 @@ def arm_effects(P, body, arm, O=None):
                 if o.get("k") == "const" and o.get("path") and not o.get("promoted"):
                     consts.append(o["path"].split("::")[-1])
     return {"consts": consts, "aggs": aggs, "calls": calls, "lits": lits}
+
+
+def int_switch_tables(P, body, O=None):
+    """switches on integer values (not enum discriminants): list of (switch_bb, scrutinee descriptor, {value: effects})"""
+    O = O or X.Origins(body, P)
+    out = []
+    for bb, t in body.switches():
+        n = len(body.blocks[bb]["stmts"])
+        ex = O.operand(t["op"], bb, n)
+        e = ex
+        while e[0] == "cast":
+            e = e[2]
+        if e[0] == "discr" or t.get("opty") == "bool":
+            continue
+        if len(t["vals"]) < 2:
+            continue
+        table = {}
+        for val, tgt in zip(t["vals"], t["targets"]):
+            a = Arm()
+            a.path = ((F.rd(positional(ex)), val),)
+            a.target = tgt
+            a.switch_bb = bb
+            a.blocks = {b for b in body.reachable if body.dominates(tgt, b)} if all(p == bb for p in body.pred[tgt]) else {tgt}
+            table[int(val)] = arm_effects(P, body, a, O)
+        out.append((bb, F.rd(positional(ex)), table))
+    return out
